@@ -664,7 +664,14 @@ def use_lemma(ex, name, bindings, extra=None, entry=None, pre=None, old=None):
                       getattr(ex, "_cur_line", None))
     finally:
         ex.probe = was_probe
-    ex.assume(c)
+    # conjunctions are assumed conjunct by conjunct (later hypotheses are then recognised syntactically)
+    stack = [c]
+    while stack:
+        f = stack.pop()
+        if is_z3(f) and z3.is_and(f):
+            stack.extend(reversed(f.children()))
+        else:
+            ex.assume(f)
     if not hasattr(ex, "used_lemmas"):
         ex.used_lemmas = set()
     ex.used_lemmas.add(name)
